@@ -4,6 +4,7 @@ import (
 	"context"
 	"encoding/binary"
 	"encoding/hex"
+	"errors"
 	"fmt"
 	"sort"
 	"strings"
@@ -12,10 +13,14 @@ import (
 	"github.com/attestantio/go-eth2-client/spec/bellatrix"
 	"github.com/attestantio/go-eth2-client/spec/phase0"
 	"github.com/attestantio/vouch/services/blockrelay"
+	standardblockrelay "github.com/attestantio/vouch/services/blockrelay/standard"
 	"github.com/google/uuid"
+	"github.com/rs/zerolog"
 	e2types "github.com/wealdtech/go-eth2-types/v2"
+	e2wtypes "github.com/wealdtech/go-eth2-wallet-types/v2"
 
 	. "verifharness/common"
+	"verifharness/mocks"
 )
 
 // Shapes of execution configuration documents (the JSON text is generated from the shape).
@@ -41,9 +46,9 @@ type ProposerIn struct {
 }
 
 type V2In struct {
-	BadField  int          `json:"bad_field,omitempty"` // 0 = every scalar field parses; k>0 = the k-th kind of invalid field
+	BadField  int           `json:"bad_field,omitempty"` // 0 = every scalar field parses; k>0 = the k-th kind of invalid field
 	Relays    []BaseRelayIn `json:"relays,omitempty"`
-	Proposers []ProposerIn `json:"proposers,omitempty"`
+	Proposers []ProposerIn  `json:"proposers,omitempty"`
 }
 
 type V1PropIn struct {
@@ -65,7 +70,7 @@ type V1In struct {
 }
 
 type DocIn struct {
-	Kind    string `json:"kind"` // malformed | version | v1 | v2
+	Kind    string `json:"kind"` // unavailable | malformed | version | v1 | v2
 	Variant int    `json:"variant,omitempty"`
 	Version uint64 `json:"version,omitempty"`
 	V1      *V1In  `json:"v1,omitempty"`
@@ -111,11 +116,11 @@ type cfgAccount struct{ id uint64 }
 
 type cfgKey struct{ id uint64 }
 
-func (k cfgKey) Marshal() []byte              { p := cfgPubkey(k.id); return p[:] }
-func (cfgKey) Aggregate(e2types.PublicKey)     {}
-func (k cfgKey) Copy() e2types.PublicKey       { return k }
-func (a cfgAccount) ID() uuid.UUID             { return uuid.UUID{byte(a.id)} }
-func (a cfgAccount) Name() string              { return fmt.Sprintf("acc%d", a.id) }
+func (k cfgKey) Marshal() []byte                  { p := cfgPubkey(k.id); return p[:] }
+func (cfgKey) Aggregate(e2types.PublicKey)        {}
+func (k cfgKey) Copy() e2types.PublicKey          { return k }
+func (a cfgAccount) ID() uuid.UUID                { return uuid.UUID{byte(a.id)} }
+func (a cfgAccount) Name() string                 { return fmt.Sprintf("acc%d", a.id) }
 func (a cfgAccount) PublicKey() e2types.PublicKey { return cfgKey{a.id} }
 
 func accountName(id uint64) string { return fmt.Sprintf("<unknown>/acc%d", id) }
@@ -301,6 +306,8 @@ func v1PropTerm(p *V1PropIn) string {
 
 func docTerm(d DocIn) string {
 	switch d.Kind {
+	case "unavailable":
+		return "DUnavailable"
 	case "malformed":
 		return "DMalformed"
 	case "version":
@@ -345,18 +352,64 @@ func docTerm(d DocIn) string {
 	}
 }
 
+// cfgSource is the scripted configuration source (majordomo) and accounts provider.
+type cfgSource struct {
+	text string
+	fail bool
+}
+
+func (c *cfgSource) Fetch(context.Context, string) ([]byte, error) {
+	if c.fail {
+		return nil, errors.New("scripted configuration source failure")
+	}
+	return []byte(c.text), nil
+}
+func (c *cfgSource) ValidatingAccountsForEpoch(context.Context, phase0.Epoch) (map[phase0.ValidatorIndex]e2wtypes.Account, error) {
+	return map[phase0.ValidatorIndex]e2wtypes.Account{1: cfgAccount{1}}, nil
+}
+func (c *cfgSource) ValidatingAccountsForEpochByIndex(context.Context, phase0.Epoch, []phase0.ValidatorIndex) (map[phase0.ValidatorIndex]e2wtypes.Account, error) {
+	return map[phase0.ValidatorIndex]e2wtypes.Account{1: cfgAccount{1}}, nil
+}
+func (c *cfgSource) SyncCommitteeAccountsForEpoch(context.Context, phase0.Epoch) (map[phase0.ValidatorIndex]e2wtypes.Account, error) {
+	return nil, errors.New("not scripted")
+}
+func (c *cfgSource) SyncCommitteeAccountsForEpochByIndex(context.Context, phase0.Epoch, []phase0.ValidatorIndex) (map[phase0.ValidatorIndex]e2wtypes.Account, error) {
+	return nil, errors.New("not scripted")
+}
+
+// runConfig drives the real block relay service: each step's document is what the configuration
+// source returns to one periodic refresh (fetchExecutionConfig), after which the lookups go
+// through the service's ProposerConfig.  The decode outcome of the document alone is observed
+// through blockrelay.UnmarshalJSON.
 func runConfig(t *testing.T, steps []ConfigStep) result {
 	ctx := context.Background()
 	res := result{}
-	var cur blockrelay.ExecutionConfigurator
+	src := &cfgSource{}
+	level := zerolog.Disabled
+	if len(steps) > 0 && steps[0].Doc.Variant%7 == 3 {
+		level = zerolog.TraceLevel
+	}
+	svc := standardblockrelay.NewForVerifC16(level, src, "file:///execution-config.json", mocks.NewChainTime(32), src, bellatrix.ExecutionAddress{9}, 12345)
+	dead := false // a refresh panicked: the service is not used any further
 	inSteps := make([]string, len(steps))
 	obsSteps := make([]string, len(steps))
 	obsJSON := []any{}
 	for i, st := range steps {
 		text := docJSON(st.Doc)
+		src.text, src.fail = text, st.Doc.Kind == "unavailable"
 		var cfg blockrelay.ExecutionConfigurator
 		var err error
-		decPanic, decMsg := catch(func() { cfg, err = blockrelay.UnmarshalJSON([]byte(text)) })
+		decPanic, decMsg := false, ""
+		if src.fail {
+			err = errors.New("unavailable")
+		} else {
+			decPanic, decMsg = catch(func() { cfg, err = blockrelay.UnmarshalJSON([]byte(text)) })
+		}
+		if !dead {
+			if p, m := catch(func() { svc.VerifC16FetchExecutionConfig(ctx) }); p {
+				dead, decPanic, decMsg = true, true, m
+			}
+		}
 		var dec string
 		switch {
 		case decPanic:
@@ -366,24 +419,21 @@ func runConfig(t *testing.T, steps []ConfigStep) result {
 			dec = errT("CEDecode")
 		default:
 			dec = okT("tt")
-			// fetchExecutionConfig: a successful fetch replaces the configuration, a failed one keeps it
-			cur = cfg
 		}
 		lks := make([]string, len(st.Lookups))
 		outs := make([]string, len(st.Lookups))
 		outsJSON := []any{}
 		for j, lk := range st.Lookups {
 			lks[j] = Pair(N(lk[0]), N(lk[1]))
-			if cur == nil {
-				// services/blockrelay/standard ProposerConfig: no configuration -> fallback without relays
-				outs[j] = okT(nlist(nil))
-				outsJSON = append(outsJSON, []uint64{})
+			if dead {
+				outs[j] = panicT
+				outsJSON = append(outsJSON, "service lost to an earlier panic")
 				continue
 			}
 			var addrs []uint64
 			var lerr error
 			p, m := catch(func() {
-				pc, e := cur.ProposerConfig(ctx, cfgAccount{lk[0]}, cfgPubkey(lk[1]), bellatrix.ExecutionAddress{9}, 12345)
+				pc, e := svc.ProposerConfig(ctx, cfgAccount{lk[0]}, cfgPubkey(lk[1]))
 				lerr = e
 				if e == nil {
 					for _, r := range pc.Relays {
@@ -414,7 +464,7 @@ func runConfig(t *testing.T, steps []ConfigStep) result {
 
 		res.counts = append(res.counts, "doc:"+st.Doc.Kind)
 		switch st.Doc.Kind {
-		case "malformed", "version":
+		case "malformed", "version", "unavailable":
 			res.nontrivial = true
 		case "v2":
 			for _, r := range st.Doc.V2.Relays {
@@ -482,8 +532,11 @@ func genV1Prop(r *Rand) *V1PropIn {
 }
 
 func genDoc(r *Rand) DocIn {
-	switch k := r.Intn(12); {
+	switch k := r.Intn(13); {
 	case k < 1:
+		if r.Chance(1, 3) {
+			return DocIn{Kind: "unavailable"}
+		}
 		return DocIn{Kind: "malformed", Variant: r.Intn(15)}
 	case k < 2:
 		return DocIn{Kind: "version", Version: []uint64{1, 3, 7}[r.Intn(3)]}
@@ -559,10 +612,16 @@ func genDoc(r *Rand) DocIn {
 func genConfig(r *Rand) []ConfigStep {
 	n := r.Range(1, 3)
 	steps := make([]ConfigStep, n)
+	var lookups [][2]uint64
+	for j, m := 0, r.Range(1, 4); j < m; j++ {
+		lookups = append(lookups, [2]uint64{uint64(r.Range(1, 4)), uint64(r.Range(1, 5))})
+	}
 	for i := range steps {
 		steps[i].Doc = genDoc(r)
-		for j, m := 0, r.Range(1, 4); j < m; j++ {
-			steps[i].Lookups = append(steps[i].Lookups, [2]uint64{uint64(r.Range(1, 4)), uint64(r.Range(1, 5))})
+		// mostly the same questions after every refresh, so that "previous configuration kept" shows
+		steps[i].Lookups = lookups
+		if r.Chance(1, 5) {
+			steps[i].Lookups = append([][2]uint64{{uint64(r.Range(1, 4)), uint64(r.Range(1, 5))}}, lookups...)
 		}
 	}
 	return steps
